@@ -63,12 +63,13 @@ func main() {
 
 	configs := []string{""}
 	if *tier == "thorough" {
-		configs = append(configs, "debugflags")
+		// the default configuration runs last so that the evidence left on disk describes it
+		configs = []string{"debugflags", ""}
 	}
 	exit := 0
 	for ci, tags := range configs {
 		t0 := time.Now()
-		p, problems := loadProg(*repo, tags)
+		p, problems := loadProg(*repo, tags, nil)
 		if p == nil {
 			for _, id := range ids {
 				fmt.Printf("load failed: %v\n", problems)
@@ -100,9 +101,12 @@ func main() {
 				registry[id](c)
 			}()
 			cfgNames := []string{label}
-			// the evidence of the last configuration is what stays on disk; earlier configurations only
-			// contribute their exit status and printed report.
-			_ = ci
+			if *tier == "thorough" {
+				cfgNames = []string{"tags=debugflags", "default"}
+				if ci == len(configs)-1 && *only == "" {
+					c.selftest = selfTest(*repo, *verif, id, c.violatedKeys())
+				}
+			}
 			if rc := c.finish(*verif, findings, seed, tc, problems, cfgNames, *only); rc != 0 {
 				exit = 1
 			}
